@@ -1,0 +1,75 @@
+//go:build verif
+
+// Contracts for the watermill verification harness (/verif, tool "gowp"). Comment-only.
+
+package metrics
+
+//@ global labelGetters != nil && (forall k string :: has(labelGetters, k) ==> labelGetters[k] != nil)
+
+//@ func init
+//@   nopanic
+//@   ensures labelGetters != nil && (forall k string :: has(labelGetters, k) ==> labelGetters[k] != nil) [every-label-getter-is-a-function]
+
+//@ spec observedP(c context.Context) bool := ctxval(c, boxed(publishObserved)) != nil
+//@ spec observedS(c context.Context) bool := ctxval(c, boxed(subscribeObserved)) != nil
+
+//@ func setPublishObservedToCtx
+//@   requires ctx != nil
+//@   nopanic
+//@   pure
+//@   ensures result != nil && observedP(result) && observedS(result) == observedS(ctx) [marks-publish-observed-only]
+
+//@ func publishAlreadyObserved
+//@   requires ctx != nil
+//@   nopanic
+//@   pure
+//@   ensures result == observedP(ctx)
+
+//@ func setSubscribeObservedToCtx
+//@   requires ctx != nil
+//@   nopanic
+//@   pure
+//@   ensures result != nil && observedS(result) && observedP(result) == observedP(ctx) [marks-subscribe-observed-only]
+
+//@ func subscribeAlreadyObserved
+//@   requires ctx != nil
+//@   nopanic
+//@   pure
+//@   ensures result == observedS(ctx)
+
+//@ func labelsFromCtx
+//@   requires ctx != nil
+//@   callee LG = getter : total
+//@   nopanic
+//@   ensures result != nil && fresh(result) [a-fresh-label-map]
+//@   inv loop 1: ctxLabels != nil && fresh(ctxLabels) [map-stays]
+
+//@ func (PublisherPrometheusMetricsDecorator).Publish
+//@   requires m.pub != nil && m.publishTimeSeconds != nil
+//@   requires forall j int :: 0 <= j && j < len(messages) ==> messages[j] != nil
+//@   callee P = m.pub.Publish
+//@   callee OBS = *.Observe : total
+//@   ensures calls(P) == old(calls(P)) + 1 && arg(P, 0, old(calls(P))) == topic && err == ret(P, 0, old(calls(P))) && (len(messages) > 0 ==> arg(P, 1, old(calls(P))) == messages) && (len(messages) == 0 ==> len(arg(P, 1, old(calls(P)))) == 0) [publish-passed-through-once-with-the-same-batch-error-returned]
+//@   ensures len(messages) == 0 ==> calls(OBS) == old(calls(OBS)) [an-empty-publish-is-not-observed]
+//@   ensures len(messages) > 0 && old(observedP(ctxOf(messages[0]))) ==> calls(OBS) == old(calls(OBS)) [already-observed-by-an-outer-decorator-not-counted-again]
+//@   ensures len(messages) > 0 && !old(observedP(ctxOf(messages[0]))) ==> calls(OBS) == old(calls(OBS)) + 1 [counted-exactly-once]
+//@   assert @call:m.pub.Publish#2: forall j int :: 0 <= j && j < len(messages) ==> observedP(ctxOf(messages[j])) [every-message-marked-before-the-inner-publisher-sees-it]
+//@   assert @call:HVW: labels[labelSuccess] == (err == nil ? "true" : "false") [success-label-matches-the-result]
+//@   inv loop 1: calls(P) == old(calls(P)) && calls(OBS) == old(calls(OBS)) && labels != nil && fresh(labels) && ctx == old(ctxOf(messages[0])) && (forall j int :: 0 <= j && j <= rangeindex ==> observedP(ctxOf(messages[j]))) && (forall j int :: 0 <= j && j < len(messages) ==> messages[j] != nil) [marking-in-progress]
+//@   panics-ensures calls(P) == old(calls(P)) + 1 && panicked(P, old(calls(P))) && (len(messages) > 0 && !old(observedP(ctxOf(messages[0]))) ==> calls(OBS) == old(calls(OBS)) + 1) [a-panicking-publisher-is-still-counted]
+//@   modifies field(message.Message.ctx)
+
+//@ func (PublisherPrometheusMetricsDecorator).Close
+//@   requires m.pub != nil
+//@   callee PC = m.pub.Close
+//@   ensures calls(PC) == old(calls(PC)) + 1 && result == ret(PC, 0, old(calls(PC))) [close-passed-through-once]
+//@   panics-ensures panicked(PC, old(calls(PC)))
+
+//@ func (HandlerPrometheusMetricsMiddleware).Middleware$1
+//@   requires msg != nil && h != nil && m.handlerExecutionTimeSeconds != nil
+//@   callee H = h
+//@   callee OBS = *.Observe : total
+//@   ensures calls(H) == old(calls(H)) + 1 && msgs == ret(H, 0, old(calls(H))) && err == ret(H, 1, old(calls(H))) [result-passed-through]
+//@   ensures calls(OBS) == old(calls(OBS)) + 1 [every-invocation-observed-exactly-once]
+//@   assert @call:HVW: labels[labelSuccess] == ((panicked(H, calls(H) - 1) || ret(H, 1, calls(H) - 1) != nil) ? "false" : "true") [success-label-is-true-only-for-an-invocation-that-returned-no-error-and-did-not-panic]
+//@   panics-ensures panicked(H, old(calls(H))) && calls(OBS) == old(calls(OBS)) + 1 [a-panicking-invocation-is-observed-too]
